@@ -123,6 +123,10 @@ inductive Act
   | chghost (nick ident host : Str)
   | names (chan : Str)
   | who (chan : Str)
+  /-- the reply to a MODE query (the bot sends one on joining; the reply may come after it has left again) -/
+  | modeis (chan : Str)
+  /-- the reply to a MODE +b query -/
+  | banlist (chan : Str)
   | reconnect
 deriving Repr, DecidableEq, Inhabited
 
@@ -424,6 +428,14 @@ def Srv.step (s : Srv) : Act → Srv × List Ev
   | .who c =>
     match s.chan c with
     | some sc => (s, if s.botIn sc then s.whoReply sc else [])
+    | none => (s, [])
+  | .modeis c =>
+    match s.chan c with
+    | some sc => (s, [s.modeIs sc, emit s.cfg.server "329" [s.bot, sc.name, sc.created]])
+    | none => (s, [])
+  | .banlist c =>
+    match s.chan c with
+    | some sc => (s, s.banList sc)
     | none => (s, [])
   | .reconnect =>
     match aget s.users s.botKey with
